@@ -39,6 +39,7 @@ class create_new_fresh:
     """Two successive requests for a new EC-multiplied encrypted key never return the same key (native evaluation only)."""
     params = {'n': Int(0, 3)}
     native_only = True
+    fuzz_divisor = 8
     bounded = 'two successive calls per evaluation, fixed intermediate passphrases'
 
     def build(n):
@@ -57,6 +58,7 @@ class encrypt_roundtrip:
     (native evaluation only: scrypt / AES are third-party)."""
     params = {'secret': Int(1, 2 ** 256 - 2 ** 32 - 978), 'compressed': Bool, 'password': Str, 'other': Str}
     native_only = True
+    fuzz_divisor = 8
     bounded = 'random secrets (biased to special byte patterns), unicode passphrases'
 
     def build(secret, compressed, password, other):
@@ -136,6 +138,7 @@ class ec_multiplied_roundtrip:
     passphrase is refused."""
     params = {'n': Int(0, 10 ** 6)}
     native_only = True
+    fuzz_divisor = 8
     bounded = 'random passphrases x {no lot, lot/sequence} x {compressed, uncompressed}, fixed owner salts and seeds drawn from a PRNG'
 
     def build(n):
@@ -182,6 +185,7 @@ class plain_mode_spec:
     params = {'secret': Int(1, 2 ** 255), 'compressed': Bool, 'pw': Int(0, 10 ** 6)}
     native_only = True
     bounded = 'random keys x 8 passphrases (ASCII, hex-looking, composed characters)'
+    fuzz_divisor = 8
 
     def build(secret, compressed, pw):
         import hashlib, unicodedata
